@@ -325,11 +325,11 @@ def main():
             print(json.dumps(w, indent=1)[:3000])
         return 0
     th = a.tier == 'thorough'
-    for r in parallel(listing_worker, [(bindir, i, 60 if not th else 400) for i in range(16)]):
+    for r in parallel(listing_worker, [(bindir, i, 60 if not th else 1200) for i in range(16)]):
         rep.merge(r)
     for r in parallel(probe_worker, [(bindir, i) for i in range(4)]):
         rep.merge(r)
-    for r in parallel(mono_worker, [(bindir, i, 500 if not th else 3000) for i in range(16)]):
+    for r in parallel(mono_worker, [(bindir, i, 500 if not th else 10000) for i in range(16)]):
         rep.merge(r)
     return rep.finish(
         rule='(a) all 42 single +/-NAME lists, all-on/all-off, random lists of 1..30 elements with duplicates in both orders, 25 malformed lists (unknown names, missing sign, empty elements, separators, 126..5000-character names) and near misses of every real name (each proper prefix, one character more or less, lower case), alone and inside lists, -d; '
